@@ -1,7 +1,7 @@
 (* AmpPathRun.v — line-protocol adapter for the C11 models (harness glue, executable).
    Area token: amppath. *)
 From Coq Require Import List NArith Bool Arith String.
-From Snow Require Import Lib.Wire Model.B64Url Model.AmpPath Model.CacheURL.
+From Snow Require Import Lib.Wire Model.B64Url Model.AmpPath Model.CacheURL Model.Rendezvous.
 Import ListNotations.
 Open Scope N_scope.
 
@@ -123,8 +123,73 @@ Definition run_cache (args : list bytes) : option bytes :=
   | _ => None
   end.
 
+(* ---------- rendezvous ops ---------- *)
+
+Definition broker_parse (t : bytes) : option broker_url :=
+  match list_parse payload_parse t with
+  | Some [sc; us; ho; hn; po; ep] =>
+      Some {| b_scheme := sc; b_user := negb (beq us []); b_host := ho; b_hostname := hn; b_port := po; b_epath := ep |}
+  | _ => None
+  end.
+
+Definition req_print (q : option request) : bytes :=
+  match q with
+  | None => bs "req=none"
+  | Some q => bs "req=" ++ join [COMMA] [xhex (q_method q); xhex (q_scheme q); xhex (q_connect_host q);
+                                        xhex (q_host_header q); xhex (q_path q); xhex (q_rawquery q);
+                                        opt_print (q_body q)]
+  end.
+Definition res_body_print (served : bytes) (r : option bytes) : bytes :=
+  match r with
+  | None => bs "res=err"
+  | Some d => bs "res=ok n=" ++ dec_print (N.of_nat (List.length d)) ++ bs " same=" ++ bool_print (beq d served)
+  end.
+
+Definition run_rdv (args : list bytes) : option bytes :=
+  match args with
+  | [op; _; front; data; status; resp; bf] =>
+      if beq op (bs "http") then
+        match payload_parse front, payload_parse data, dec_parse status, payload_parse resp, broker_parse bf with
+        | Some front, Some data, Some status, Some resp, Some b =>
+            Some (req_print (Some (http_request b front data)) ++ [SP]
+                  ++ res_body_print resp (http_response READ_LIMIT status resp))
+        | _, _, _, _, _ => None
+        end
+      else None
+  | [op; _; _; front; data; status; loc; resp; bodysize; alen; bf; cf; ou; pre; oa; sha] =>
+      if beq op (bs "amp") then
+        match payload_parse front, payload_parse data, dec_parse status, bool_parse loc, payload_parse resp,
+              dec_parse bodysize, dec_parse alen, broker_parse bf,
+              (if beq cf (bs "n") then Some None else option_map Some (cache_parse cf)),
+              opt_payload_parse ou, opt_payload_parse pre, opt_payload_parse oa, payload_parse sha with
+        | Some front, Some data, Some status, Some loc, Some resp, Some bodysize, Some alen, Some b, Some cache,
+          Some ou, Some pre, Some oa, Some sha =>
+            let miss := match cache, ou, pre with
+                        | Some _, Some u, Some p => negb (beq (steps234 h34_runes u) p)
+                        | Some _, Some _, None => true
+                        | _, _, _ => false
+                        end in
+            if miss then Some (bs "!oracle-miss") else
+            let n := N.to_nat (N.max bodysize alen) in
+            let body := repeat 32 n in
+            let adec := fun lr : bytes => if Nat.eqb (List.length lr) n then Some resp else None in
+            let q := amp_request (fun _ => ou) (fun _ => oa) (fun _ => sha) h34_runes b cache front (repeat 0 9) data in
+            Some (req_print q ++ [SP] ++
+                  match q with
+                  | None => bs "res=err"
+                  | Some _ => res_body_print resp (amp_response adec READ_LIMIT status loc body)
+                  end)
+        | _, _, _, _, _, _, _, _, _, _, _, _, _ => None
+        end
+      else None
+  | _ => None
+  end.
+
 Definition run (args : list bytes) : bytes :=
   match run_path args with
   | Some r => r
-  | None => match run_cache args with Some r => r | None => ERR_BADCASE end
+  | None => match run_cache args with
+            | Some r => r
+            | None => match run_rdv args with Some r => r | None => ERR_BADCASE end
+            end
   end.
